@@ -2,7 +2,7 @@
 from facts import AnalysisBroken
 from model import (dstr, strip, fact_holds, mentions_field, mentions_call, mentions_var,
                    mentions_enum, const_value, walk)
-from props.scan_common import check_refresh_validations, check_outputs_statted, check_midbuild_targets_scheduled
+from props.scan_common import check_recheck_is_full, check_refresh_validations, check_outputs_statted, check_midbuild_targets_scheduled
 from rules import (deep_resolve, absent_from, guarded, calls_to, field_writes, who_may_call, must_pass, dominated_by,
                    full_range, loops_over, every_iteration_passes, basename, error_discipline,
                    origins, reject_if, canon_before_intern, skip_conditions_exact, is_var,
@@ -334,7 +334,8 @@ def run(ctx):
     check_refresh_validations(ctx, 'C11.O1', prog)
     check_outputs_statted(ctx, 'C11.O1', prog)
     check_midbuild_targets_scheduled(ctx, 'C11.O1', prog)
-    ctx.floor('C11.O1', 12)
+    check_recheck_is_full(ctx, 'C11.O1', prog)
+    ctx.floor('C11.O1', 14)
 
     # ---- CN ---------------------------------------------------------------------------------------------
     R('C11.CN', 'CN', 'every path parsed from a dyndep file is canonicalised before it becomes a node identity')
